@@ -1643,11 +1643,11 @@ func (self *Fork) expandForkFromObj(
 	ref fmt.GoStringer,
 	result []ForkId) ([]ForkId, error) {
 	if obj == nil {
-		if len(self.node.forks)-1 > self.index {
-			pc := *part
-			part = &pc
-			self.forkId[i] = part
-		}
+		// Sibling forks may still share this placeholder part, if their
+		// own source is not resolved yet.  Never edit it in place.
+		pc := *part
+		part = &pc
+		self.forkId[i] = part
 		part.Id = emptyFork{}
 		self.updateId(self.forkId)
 		self.writeDisable()
@@ -1669,21 +1669,21 @@ func (self *Fork) expandForkFromObj(
 			}
 		}
 		if n == 0 {
-			if len(self.node.forks)-1 > self.index {
-				pc := *part
-				part = &pc
-				self.forkId[i] = part
-			}
+			// Sibling forks may still share this placeholder part, if
+			// their own source is not resolved yet.  Never edit it in place.
+			pc := *part
+			part = &pc
+			self.forkId[i] = part
 			part.Id = emptyFork{}
 			self.updateId(self.forkId)
 			self.writeDisable()
 			return nil, nil
 		} else if n == 1 {
-			if len(self.node.forks)-1 > self.index {
-				pc := *part
-				part = &pc
-				self.forkId[i] = part
-			}
+			// Sibling forks may still share this placeholder part, if
+			// their own source is not resolved yet.  Never edit it in place.
+			pc := *part
+			part = &pc
+			self.forkId[i] = part
 			part.Id = arrayIndexFork(0)
 			if self.forkId[i] != part {
 				panic("not editing the right part")
@@ -1737,17 +1737,20 @@ func (self *Fork) expandForkFromObj(
 			}
 		}
 		if len(keys) == 0 {
-			if len(self.node.forks)-1 > self.index {
-				pc := *part
-				part = &pc
-				self.forkId[i] = part
-			}
+			// Sibling forks may still share this placeholder part, if
+			// their own source is not resolved yet.  Never edit it in place.
+			pc := *part
+			part = &pc
+			self.forkId[i] = part
 			part.Id = emptyFork{}
 			self.updateId(self.forkId)
 			self.writeDisable()
 			return nil, nil
 		}
 		if len(keys) == 1 {
+			pc := *part
+			part = &pc
+			self.forkId[i] = part
 			part.Id = mapKeyFork(keys[0])
 			self.updateId(self.forkId)
 			return nil, nil
